@@ -24,6 +24,66 @@ type gen struct {
 	idb string // identity base of the module being generated, with its prefix ("" before the first module)
 	// byRef: the groupings behind the references a body may use (to tell whether two of them can be used side by side)
 	byRef map[string]*sg.Grouping
+	// pfx: the prefix of the module being generated
+	pfx string
+}
+
+// nestedUses: a uses written inside the body of a grouping; now and then with a refine and an augment of its own, whose
+// paths are written plainly or with the prefix of the module the grouping is written in (a reference to a node of the
+// current module may carry its prefix; the nodes are copied to wherever the outer grouping is used, another module included)
+func (x *gen) nestedUses(ref string) *sg.Node {
+	g := x.g
+	u := &sg.Node{Kind: "uses", Name: ref}
+	gr := x.byRef[ref]
+	if gr == nil || !g.Chance(1, 2, "nestedrefine") {
+		return u
+	}
+	var all, ts []target
+	targets(gr.Kids, "", &all)
+	for _, t := range all {
+		ok := true
+		for _, o := range all {
+			if o.node.Status != "" && (t.path == o.path || strings.HasPrefix(t.path, o.path+"/")) {
+				ok = false
+			}
+		}
+		if ok {
+			ts = append(ts, t)
+		}
+	}
+	if len(ts) == 0 {
+		return u
+	}
+	own := x.pfx != "" && g.Chance(2, 3, "nestedownpfx")
+	pp := func(path string) string {
+		if !own {
+			return path
+		}
+		parts := strings.Split(path, "/")
+		for i := range parts {
+			parts[i] = x.pfx + ":" + parts[i]
+		}
+		return strings.Join(parts, "/")
+	}
+	if t := ts[g.Pick(len(ts), "nestedrtarget")]; t.node.Kind != "case" && g.Chance(2, 3, "nestedhasrefine") {
+		r := x.refine(t)
+		r.Target = pp(r.Target)
+		u.Refines = append(u.Refines, r)
+	}
+	var augTargets []target
+	for _, t := range ts {
+		if t.node.Kind == "container" || t.node.Kind == "list" {
+			augTargets = append(augTargets, t)
+		}
+	}
+	if len(augTargets) > 0 && g.Chance(2, 3, "nestedhasaug") {
+		t := augTargets[g.Pick(len(augTargets), "nestedatarget")]
+		a := &sg.Augment{Target: pp(t.path), Kids: []*sg.Node{x.leaf(x.id("na"))}}
+		a.Kids[0].Mandatory = ""
+		a.Kids[0].When = ""
+		u.Augments = append(u.Augments, a)
+	}
+	return u
 }
 
 // sideBySide: neither grouping reaches the other or a third one both reach (their nodes would appear twice)
@@ -188,7 +248,7 @@ func (x *gen) body(depth int, gs []string, usesAllowed bool) []*sg.Node {
 			if usesAllowed && len(gs) > 0 && !used {
 				used = true
 				usedRef = gs[g.Pick(len(gs), "gref")]
-				out = append(out, &sg.Node{Kind: "uses", Name: usedRef})
+				out = append(out, x.nestedUses(usedRef))
 				if r2 := gs[g.Pick(len(gs), "grefnext")]; g.Chance(1, 2, "seconduses") && x.sideBySide(usedRef, r2) {
 					// ... directly followed by another one (of a grouping that shares nothing with the first)
 					out = append(out, &sg.Node{Kind: "uses", Name: r2})
@@ -512,6 +572,7 @@ func genCase(t *rapid.T) Case {
 			}
 		}
 		x.idb = fmt.Sprintf("%s:idbase-%d", m.Prefix, i)
+		x.pfx = m.Prefix
 		// every module also has a feature of the same name: written without a prefix, "fshared" means the feature of the
 		// module the statement is written in
 		m.Features = []*sg.Feature{{Name: fmt.Sprintf("f%d", i)}, {Name: "fshared"}}
